@@ -202,6 +202,7 @@ def run_cli(
     report_dir=None,
     schema_format="json",
     callbacks=None,
+    url_userinfo=None,
 ):
     """Run `st run <schema-url> --url <base> <args...>` in-process. Returns RunResult."""
     from schemathesis import cli as st_cli
@@ -225,7 +226,8 @@ def run_cli(
     started = time.monotonic()
     with RecordingServer(script, dynamic=dynamic) as server:
         result.base_url = server.url + base_path
-        argv = ["run", server.url + SCHEMA_PATH, "--url", result.base_url, "--no-color"] + list(args)
+        cli_base_url = result.base_url if not url_userinfo else result.base_url.replace("http://", f"http://{url_userinfo}@")
+        argv = ["run", server.url + SCHEMA_PATH, "--url", cli_base_url, "--no-color"] + list(args)
         out, err = io.StringIO(), io.StringIO()
 
         def fire():
@@ -235,6 +237,9 @@ def run_cli(
             faulthandler.dump_traceback(file=sys.__stderr__)
 
         controller.install()
+        saved_argv = sys.argv
+        # the product inspects sys.argv to describe how it was started (cassette `command:` field)
+        sys.argv = ["st"] + argv
         try:
             with _watchdog(timeout, fire), contextlib.redirect_stdout(out), contextlib.redirect_stderr(err):
                 try:
@@ -247,6 +252,7 @@ def run_cli(
                     result.exit_code = -1
                     result.harness_error = f"{type(exc).__name__}: {exc}"
         finally:
+            sys.argv = saved_argv
             controller.uninstall()
             executor.CUSTOM_HANDLERS.clear()
         result.stdout, result.stderr = out.getvalue(), err.getvalue()
